@@ -94,6 +94,14 @@ S["two_trigger_delays_rev"] = dict(until=3, sims=[E("A", init_event=0, emit_defa
                                                  E("B", emit_default=0), E("Cc")],
                                    conns=[C("A", "B", "eo", "ti2", shift=1), C("A", "B", "eo", "ti"),
                                           C("B", "Cc", "eo", "ti")])
+# ... the same pair of connections BEHIND a triggering ancestor: the delay accumulated from X to B
+# must be X->A plus the smaller of the two
+S["two_trigger_delays_upstream"] = dict(
+    until=4, sims=[T("X"), E("A", emit_default=0), E("B", emit_default=0)],
+    conns=[C("X", "A", "po", "ti"), C("A", "B", "eo", "ti"), C("A", "B", "eo", "ti2", shift=1)])
+S["two_trigger_delays_upstream_rev"] = dict(
+    until=4, sims=[T("X"), E("A", emit_default=0), E("B", emit_default=0)],
+    conns=[C("X", "A", "po", "ti"), C("A", "B", "eo", "ti2", shift=1), C("A", "B", "eo", "ti")])
 # a direct trigger edge that is longer than an indirect path between the same two simulators
 S["two_paths_shift2"] = dict(until=4, sims=[E("A", init_event=0, emit=[0, None, None, 0], next=[1, 1, 1]),
                                             E("R", init_event=0, emit_default=0), E("Z")],
